@@ -25,14 +25,73 @@ fn k_plate_position_record() {
     kani::cover!(true, "reachable");
 }
 
-//@unit props=C16 label=P tier=quick fn=tera::Terrain::{from_existing,write_to_buffer}(position arithmetic)
-//@desc the arithmetic used by the reader (plate_size*(x+0.5)) and the writer (((p/128)-0.5) as i16) are inverse for every i16 grid coordinate at plate size 128, so a written terrain parses back to the same plate positions
+fn tera_file(x: i16, y: i16) -> [u8; 56] {
+    let mut b = [0u8; 56];
+    b[0..4].copy_from_slice(&0x1000003u32.to_le_bytes());
+    b[4..8].copy_from_slice(&1u32.to_le_bytes());
+    b[8..12].copy_from_slice(&128u32.to_le_bytes());
+    b[16..20].copy_from_slice(&1.0f32.to_le_bytes());
+    b[52..54].copy_from_slice(&x.to_le_bytes());
+    b[54..56].copy_from_slice(&y.to_le_bytes());
+    b
+}
+
+//@unit props=C16 label=S tier=thorough fn=tera::Terrain::from_existing bound="one-plate terrain files of plate size 128, every i16 grid x (y fixed to -3)" stubs=fmt::format
+//@desc the real reader places plate (x, y) at 128*(x+0.5), 128*(y+0.5)
 #[kani::proof]
-fn k_terrain_grid_roundtrip() {
+#[kani::unwind(60)]
+#[kani::stub(alloc::fmt::format, stub_fmt)]
+fn k_terrain_file_read() {
     let x: i16 = kani::any();
-    let plate_size: u32 = 128;
-    let p = plate_size as f32 * (x as f32 + 0.5);
-    let back = ((p / plate_size as f32) - 0.5) as i16;
-    assert!(back == x, "write(read(x)) == x");
+    let b = tera_file(x, -3);
+    match Terrain::from_existing(&b) {
+        Some(t) => {
+            assert!(t.plates.len() == 1, "one plate");
+            assert!(t.plates[0].position.0 == 128.0 * (x as f32 + 0.5) && t.plates[0].position.1 == -320.0, "plate centre = plate size x (grid coordinate + 1/2)");
+            core::mem::forget(t);
+        }
+        None => assert!(false, "a well-formed terrain parses"),
+    }
     kani::cover!(true, "reachable");
+}
+
+//@unit props=C16 label=S tier=thorough fn=tera::Terrain::write_to_buffer bound="one-plate terrains whose plate centre is 128*(x+0.5) for every i16 grid x (y fixed to -3)" stubs=fmt::format
+//@desc the real writer stores the plate whose centre is 128*(x+0.5) at grid coordinate x again (56-byte file: header, 32 bytes of padding, coordinates)
+#[kani::proof]
+#[kani::unwind(60)]
+#[kani::stub(alloc::fmt::format, stub_fmt)]
+fn k_terrain_file_write() {
+    let x: i16 = kani::any();
+    let t = Terrain { plates: vec![PlateModel { position: (128.0 * (x as f32 + 0.5), -320.0), filename: String::new() }] };
+    let b = tera_file(x, -3);
+    match t.write_to_buffer() {
+        Some(o) => {
+            assert!(o.len() == 56, "written length");
+            assert!(o[52] == b[52] && o[53] == b[53] && o[54] == b[54] && o[55] == b[55], "grid coordinates survive the float round trip");
+            assert!(o[0] == 3 && o[3] == 1 && o[4] == 1 && o[8] == 128, "version, plate count, plate size");
+            core::mem::forget(o);
+        }
+        None => assert!(false, "write succeeds"),
+    }
+    core::mem::forget(t);
+    kani::cover!(true, "reachable");
+}
+
+//@unit props=C16 label=B tier=quick native=1 fn=tera::Terrain::{from_existing,write_to_buffer} bound="exhaustive by execution: every i16 x with y = -x-1 and y = x rotated by 7 bits, one- and three-plate files"
+//@desc same contract as k_terrain_file_roundtrip, by execution of the real reader and writer
+#[test]
+fn native_terrain_roundtrip() {
+    let mut cases = 0u64;
+    for xi in i16::MIN..=i16::MAX {
+        for y in [(-(xi as i32) - 1) as i16, xi.rotate_left(7)] {
+            let b = tera_file(xi, y);
+            let t = Terrain::from_existing(&b).expect("parses");
+            assert_eq!(t.plates[0].position, (128.0 * (xi as f32 + 0.5), 128.0 * (y as f32 + 0.5)), "plate centre of ({xi},{y})");
+            assert_eq!(t.plates[0].filename, "0000.mdl");
+            let o = t.write_to_buffer().expect("writes");
+            assert_eq!(&o[..], &b[..], "terrain with plate ({xi},{y}) written back byte for byte");
+            cases += 1;
+        }
+    }
+    println!("NATIVE native_terrain_roundtrip cases={cases}");
 }
